@@ -202,6 +202,17 @@ def builtins : Handler := fun _ impl =>
   let m := joinWith "," (sortBy (fun a b => decide (a ≤ b)) builtinNames)
   { model := m, spec := if impl == m then specOk else specFail "unclassified" "builtin-table-differs", nt := true }
 
-def handlers : List (String × Handler) := [("c09.rt", rt), ("c09.e2e", e2e), ("c09.builtins", builtins)]
+/-- `c09.lit <bits>`: is `format!("{}", f)` read back as an integer?  Model: from the bits alone. -/
+def lit : Handler := fun args impl =>
+  match args with
+  | [b] =>
+    match hexToNat b with
+    | some n =>
+      let m := if bitsStable n then "float" else "int"
+      { model := m, spec := if impl == m then specOk else specFail "unclassified" "literal-class-differs", nt := f64Integral n || f64Exp n ≥ 1075 }
+    | none => badReq
+  | _ => badReq
+
+def handlers : List (String × Handler) := [("c09.rt", rt), ("c09.e2e", e2e), ("c09.builtins", builtins), ("c09.lit", lit)]
 
 end ILV.Drv.C09
